@@ -59,6 +59,13 @@ PROPS["C01"] = {"title": "XML decodes to the Map the documented conventions pres
     "level_text": "Executable Coq model of the decoder (all options, cast, escaping, tag sequence numbers) tied to the current /repo on real token streams; theorems over the model; the Go-side oracle compares NewMapXml with a direct transcription of the conventions on abstract documents rendered with random lexical choices.",
     "level_note": "Trusted: Coq kernel; encoding/xml tokenizer and strconv as environment; hand-written model validated by correspondence on every run."}
 
+# further properties: one file bin/props.d/<id>.py each, defining PROP = {...} (same keys as above)
+import glob as _glob, os as _os
+for _f in sorted(_glob.glob(_os.path.join(_os.path.dirname(_os.path.abspath(__file__)), "props.d", "C*.py"))):
+    _ns = {"KV_ASSUME": KV_ASSUME, "XML_ASSUME": XML_ASSUME, "TRUSTED_BASE": TRUSTED_BASE}
+    exec(compile(open(_f).read(), _f, "exec"), _ns)
+    PROPS[_os.path.basename(_f)[:-3]] = _ns["PROP"]
+
 # properties not (yet) claimed; kept current as checks are added
 _ALL = ["C%02d" % i for i in range(1, 21)]
 NOT_APPLICABLE = [{"property_id": p, "reason": "check not built yet in this round (planned, see DESIGN.md section 6); not a limit of the technique"}
